@@ -154,9 +154,8 @@ def decide(prop, tier, seed):
         for f in res.get("functions", []):
             if f.get("repo"):
                 functions.append({"function": f["function"], "repo": f["repo"], "body_sha256": f["body_sha256"], "ok": f["ok"], "ms": f["ms"], "back_end": "verus/z3"})
-        for f in u.fns:
-            if f.external:
-                trusted.add("external_body (trusted contract): %s [unit %s]" % (f.qual, u.name))
+        for t in u.trusted():
+            trusted.add(t)
 
     kres, kcmds = kres_box[0]
     kani_time = 0.0
